@@ -201,6 +201,24 @@ pub fn run(scn: &ReqRep, ch: &mut Chooser, want_trace: bool) -> RunOut {
     let mut env = RrEnv { scn, tx, q_sink: vec![None; nq], q_stream: vec![None; nq], r_sink: vec![None; nr], r_stream: vec![None; nr] };
     let mut ex = Exec::new(w.clone(), Box::pin(topic));
     ex.drive(&mut env);
+    // Quiescence: nothing is blocked, nobody holds a wake-up. Under an executor that only
+    // re-polls on wake-up this is the final state, so the reference model is evaluated here.
+    let mut viol = Vec::new();
+    {
+        let ids = Ids { q_sink: env.q_sink.clone(), q_stream: env.q_stream.clone(), r_sink: env.r_sink.clone(), r_stream: env.r_stream.clone() };
+        let mut g = lock(&w);
+        g.end_clock = g.tick();
+        for s in g.sinks.iter_mut() {
+            s.accepted_at_quiescence = s.accepted.len();
+            s.flushed_at_quiescence = s.flushed;
+        }
+        let abandoned = ex.out.spun || ex.out.livelock || ex.out.panicked.is_some();
+        if !abandoned {
+            oracle(scn, &g, &ex.out, &ids, &mut viol);
+        }
+        g.end_clock = u64::MAX;
+    }
+    // ... and only then the probe poll for C09
     ex.settle();
     {
         let mut g = lock(&w);
@@ -212,17 +230,12 @@ pub fn run(scn: &ReqRep, ch: &mut Chooser, want_trace: bool) -> RunOut {
         Outcome { done: None, panicked: None, spun: false, livelock: false, lost_wake: None, closed_at: None, polls: 0, states: vec![], registered: 0 },
     );
     drop(ex);
-    let ids = Ids { q_sink: env.q_sink.clone(), q_stream: env.q_stream.clone(), r_sink: env.r_sink.clone(), r_stream: env.r_stream.clone() };
     drop(env);
     let mut g = lock(&w);
-    let mut viol = Vec::new();
     let abandoned = out.spun || out.livelock || out.panicked.is_some();
     common_c09(&out, &g, "reqrep", &mut viol);
     if let Some((m, l)) = &out.panicked {
         viol.push(RViol { prop: scn.owner, clause: format!("reqrep:panic:{}:{}", panics_file(l), mask(m)), msg: format!("router panicked: {m} at {l}") });
-    }
-    if !abandoned {
-        oracle(scn, &g, &out, &ids, &mut viol);
     }
     let oh = outcome_hash(&g, &out);
     let rep = ExecReport {
@@ -279,6 +292,8 @@ fn oracle(scn: &ReqRep, g: &World, out: &Outcome, ids: &Ids, viol: &mut Vec<RVio
 
     // ---- replier life cycles
     struct Rep {
+        /// when the environment ended the replier (departure / failure / end yielded)
+        env_end: Option<u64>,
         sent: Option<u64>,
         bound: Option<u64>,
         end: Option<u64>,
@@ -291,7 +306,7 @@ fn oracle(scn: &ReqRep, g: &World, out: &Outcome, ids: &Ids, viol: &mut Vec<RVio
         let (si, st) = match (ids.r_sink[k], ids.r_stream[k]) {
             (Some(a), Some(b)) => (a, b),
             _ => {
-                reps.push(Rep { sent: None, bound: None, end: None, rejected: false, healthy: true, seen: None });
+                reps.push(Rep { env_end: None, sent: None, bound: None, end: None, rejected: false, healthy: true, seen: None });
                 continue;
             }
         };
@@ -315,7 +330,8 @@ fn oracle(scn: &ReqRep, g: &World, out: &Outcome, ids: &Ids, viol: &mut Vec<RVio
         let seen = match (s.first_touch.as_ref().map(|x| x.clock), in_run(t.dropped_at), t.first_touch) {
             (a, b, c) => [a, b, c].into_iter().flatten().min(),
         };
-        reps.push(Rep { sent: t.sent_at, bound, end: if rejected { None } else { end }, rejected, healthy: s.failed.is_none(), seen });
+        let env_end = [t.depart_clock, t.end_clock, s.failed].into_iter().flatten().min();
+        reps.push(Rep { env_end, sent: t.sent_at, bound, end: if rejected { None } else { end }, rejected, healthy: s.failed.is_none(), seen });
     }
 
     // two repliers bound at once
@@ -351,11 +367,15 @@ fn oracle(scn: &ReqRep, g: &World, out: &Outcome, ids: &Ids, viol: &mut Vec<RVio
             // the channel is FIFO, so a replier registered earlier was adopted earlier; it
             // justifies the rejection if it was bound and its binding had not ended before
             // this one registered
+            // ... unless it had already ended and the router completed a whole poll between
+            // that end and this registration without being held up by a pending sink (enough
+            // to notice the end and unbind it).
+            let sent_k = r.sent.unwrap_or(0);
             let legit = (0..nr).any(|o| {
                 o != k
                     && !reps[o].rejected
-                    && reps[o].sent.unwrap_or(u64::MAX) < r.sent.unwrap_or(0)
-                    && reps[o].end.map_or(true, |e| e > r.sent.unwrap_or(0))
+                    && reps[o].sent.unwrap_or(u64::MAX) < sent_k
+                    && reps[o].env_end.map_or(true, |e| !g.polls.iter().any(|(ps, pe, blocked)| *ps > e && *pe < sent_k && !*blocked))
             });
             if !legit {
                 viol.push(RViol { prop: p10, clause: "reqrep:rejected-without-bound-replier".into(), msg: format!("R{k} was rejected although no other replier was bound between its registration and its rejection") });
@@ -377,6 +397,10 @@ fn oracle(scn: &ReqRep, g: &World, out: &Outcome, ids: &Ids, viol: &mut Vec<RVio
                 viol.push(RViol { prop: p10, clause: "reqrep:rejection-unflushed".into(), msg: format!("rejected replier R{k}: error frame not flushed") });
             }
             continue;
+        }
+        // a replier that is alive and well must not be unbound by the router
+        if r.bound.is_some() && r.env_end.is_none() && r.healthy && in_run(g.streams[st].dropped_at).is_some() {
+            viol.push(RViol { prop: p10, clause: "reqrep:healthy-replier-unbound".into(), msg: format!("R{k} neither left nor failed, yet the router dropped it") });
         }
         // requests only while bound
         for (c, f) in &s.accepted {
